@@ -33,7 +33,6 @@ RULE = (
 ASSUMPTIONS = [
     "node functions are pure and content-based so that values are comparable across copies",
     "structural mutators = add_inputs, set_inputs, name, needs_seed, function, at, distribution, per_obs, value_node, dist_node, observed, parameter, transform (group membership, role, info, monitor, auto_transform are not structure)",
-    "after pop/copy + rebuild the model's seed nodes are re-created with the default key (documented in known_findings.txt as an open finding when set_seed preceded the rebuild)",
 ]
 
 
